@@ -145,6 +145,16 @@ CHECKS = {
              "unchanged. Products and quotients in auto_reduce_dimensions / autoconvert_to_preferred registries are checked the same way.",
         note="Two known findings: to_compact AssertionError for names with two readings (rads, dtex); to_reduced_units with non-terminating merged exponents in float/Decimal registries. to_preferred is not run in the Decimal registry (the MIP solver rejects Decimal).",
         design="5/C15"),
+    "C16": dict(
+        technique="Hypothesis over a recipe table covering the handled NumPy functions/ufuncs/methods (names read at run time): metamorphic relation (same physical arrays in two unit assignments) + differential against NumPy on root magnitudes with a semantic-class dimension oracle; error-clause enumeration; offset-unit cases compared with the operator forms",
+        text="~200 recipes give, per handled name, the argument roles, the call and the semantic class of the output (same unit, product, quotient, square, sqrt, "
+             "dimensionless, bare ...). Random float arrays (rank 1-2, optional NaN) are attached to units drawn per argument from the required class, twice; the "
+             "result must be physically equal under both assignments and equal to NumPy applied to the root-unit magnitudes with the expected dimension. Rounding "
+             "functions are compared in their own unit only; order/equality-sensitive ones use bit/byte/KiB so that re-expression is exact. Every same-dimension "
+             "slot is also filled with another dimension (must raise DimensionalityError); offset-unit arrays are run through 16 operations in both registry "
+             "modes and operand orders and compared with the operator form; inputs must be unchanged after non in-place calls; names without a recipe are listed in evidence.",
+        note="23 known-finding classes with two root causes: (1) mod/remainder/fmod/floor_divide do not convert their operands (pinned by the existing test-suite), (2) the ufunc implementations bypass the offset-unit rules. Functions without a recipe are reported, not claimed.",
+        design="5/C16"),
     "C20": dict(
         technique="complete enumeration of an independently curated table of ~260 standard values x spellings x {Fraction, float} registries (differential oracle: the table)",
         text="Each entry of data/standards.txt (SI and binary prefixes, SI units, defining constants, yard/pound multiples, US/imperial capacity, avoirdupois/"
